@@ -173,8 +173,17 @@ class MultiLanguageLintRule(BaseLintRule):
         if not has_file_content(context):
             return []
 
+        from .linter_utils import matches_ignore_patterns
+
         config = self._load_config(context)
         if not config.enabled:
+            return []
+        project_root = getattr(context, "metadata", None) or {}
+        if matches_ignore_patterns(
+            context.file_path,
+            getattr(config, "ignore", None),
+            project_root.get("_project_root") if isinstance(project_root, dict) else None,
+        ):
             return []
 
         return self._dispatch_by_language(context, config)
